@@ -250,6 +250,15 @@ func chanRound(kv map[string]string, p parser.Parser) string {
 		prodJitter = rand.New(rand.NewSource(seed + 7919))
 	}
 	pause := time.Duration(geti(kv, "pause", 0)) * time.Millisecond
+	fifoDir := ""
+	if kv["fifo"] == "1" {
+		d, err := os.MkdirTemp(os.Getenv("HV_TMP"), "hv-fifo")
+		if err != nil {
+			panic(err)
+		}
+		fifoDir = d
+		defer os.RemoveAll(d)
+	}
 	exited := make(chan struct{})
 	go func() {
 		defer close(exited)
@@ -258,11 +267,8 @@ func chanRound(kv map[string]string, p parser.Parser) string {
 			p.ParseFile(path)
 		} else if kv["fifo"] == "1" {
 			// the file is a named pipe fed by a writer: readable, but without a size and not a regular file
-			dir, err := os.MkdirTemp("", "hv-fifo")
-			if err != nil {
-				panic(err)
-			}
-			defer os.RemoveAll(dir)
+			// (its directory was made by the caller and is removed when the round is over, whether or not this goroutine ever returns)
+			dir := fifoDir
 			path := dir + "/log.fifo"
 			if err := syscall.Mkfifo(path, 0600); err != nil {
 				panic(err)
